@@ -198,6 +198,10 @@ func (c *collector) Collect(ch chan<- prometheus.Metric) {
 		c.createResourceAttributes(metrics.Resource)
 	}
 
+	// Scopes that differ only in their schema URL have identical scope info
+	// metrics; sending both would make the registry reject the scrape.
+	sentScopeInfos := make(map[instrumentation.Scope]struct{}, len(metrics.ScopeMetrics))
+
 	for _, scopeMetrics := range metrics.ScopeMetrics {
 		n := len(c.resourceKeyVals.keys) + 2 // resource attrs + scope name + scope version
 		kv := keyVals{
@@ -216,7 +220,12 @@ func (c *collector) Collect(ch chan<- prometheus.Metric) {
 				continue
 			}
 
-			ch <- scopeInfo
+			key := scopeMetrics.Scope
+			key.SchemaURL = ""
+			if _, sent := sentScopeInfos[key]; !sent {
+				sentScopeInfos[key] = struct{}{}
+				ch <- scopeInfo
+			}
 
 			kv.keys = append(kv.keys, scopeNameLabel, scopeVersionLabel)
 			kv.vals = append(kv.vals, scopeMetrics.Scope.Name, scopeMetrics.Scope.Version)
